@@ -60,6 +60,69 @@ fn gen_sample_x(rng: &mut SplitMix, spec: &GraphSpec, dim: usize) -> Op {
     }
 }
 
+static STEERED: std::sync::atomic::AtomicU64 = std::sync::atomic::AtomicU64::new(0);
+/// points steered since the last call (evidence counter)
+pub fn take_steered() -> u64 {
+    STEERED.swap(0, std::sync::atomic::Ordering::Relaxed)
+}
+
+/// Comparison steering: run the call once with a trace, find the comparisons in
+/// which an input coordinate took part, and move that coordinate ONTO the value it
+/// was compared with (or one unit in the last place beside it).  Branch boundaries
+/// of the sampling map (which edge is selected next, say) are where two code paths
+/// that round differently - a table rebuilt on restore, a cached instead of a
+/// computed probability - give different results; random points never land there.
+fn steer_to_boundary(rng: &mut SplitMix, s: &Arc<dyn Sampler>, op: Op) -> Op {
+    let (mut point, ed, st) = match op {
+        Op::SampleX { point, ed, st } => (point, ed, st),
+        o => return o,
+    };
+    ctx::begin_op(vec![], true, 400_000);
+    let _ = s.sample_x(&point, &ed, &crate::sampler::Settings::plain());
+    let stt = ctx::end_op();
+    let mut cand: Vec<(usize, u64)> = Vec::new();
+    if let Some(tr) = &stt.trace {
+        for ev in tr {
+            if ev.kind != ctx::kind::CMP && ev.kind != ctx::kind::EQ {
+                continue;
+            }
+            for (i, &p) in point.iter().enumerate() {
+                let other = if ev.b == p && ev.a != p {
+                    ev.a
+                } else if ev.a == p && ev.b != p {
+                    ev.b
+                } else {
+                    continue;
+                };
+                let v = f64::from_bits(other);
+                if v.is_finite() && v > 0.0 && v < 1.0 {
+                    cand.push((i, other));
+                }
+            }
+        }
+    }
+    if !cand.is_empty() {
+        STEERED.fetch_add(1, std::sync::atomic::Ordering::Relaxed);
+        let (i, b) = cand[rng.below(cand.len() as u64) as usize];
+        point[i] = match rng.below(4) {
+            0 | 1 => b,
+            2 => b + 1,
+            _ => b - 1,
+        };
+    }
+    Op::SampleX { point, ed, st }
+}
+
+/// a sample call, one time in six steered onto a branch boundary of this sampler
+fn gen_sample_x_on(rng: &mut SplitMix, t: &Target) -> Op {
+    let op = gen_sample_x(rng, &t.spec, t.dim);
+    if rng.chance(1, 6) {
+        steer_to_boundary(rng, &t.s, op)
+    } else {
+        op
+    }
+}
+
 fn events_of(spec: &GraphSpec, s: &Arc<dyn Sampler>, op: &Op) -> u64 {
     use crate::model::{exec_op, ClientState, Env};
     let envs = vec![Arc::new(Env {
@@ -173,7 +236,7 @@ fn gen_mixed_op(rng: &mut SplitMix, t: &Target, probe: &Op, c18: bool) -> Op {
                 if rng.chance(1, 2) {
                     probe.clone()
                 } else {
-                    gen_sample_x(rng, &t.spec, t.dim)
+                    gen_sample_x_on(rng, t)
                 }
             }
             70..=79 => Op::Getters,
@@ -184,8 +247,8 @@ fn gen_mixed_op(rng: &mut SplitMix, t: &Target, probe: &Op, c18: bool) -> Op {
     } else {
         match r {
             0..=24 => probe.clone(),
-            25..=45 => gen_sample_x(rng, &t.spec, t.dim),
-            46..=47 => match gen_sample_x(rng, &t.spec, t.dim) {
+            25..=45 => gen_sample_x_on(rng, t),
+            46..=47 => match gen_sample_x_on(rng, t) {
                 Op::SampleX { point, ed, mut st } => {
                     st.debug = false;
                     Op::SampleXP { point, ed, st, prec: *rng.pick(&[24u8, 53, 40, 24, 53]) }
@@ -201,7 +264,7 @@ fn gen_mixed_op(rng: &mut SplitMix, t: &Target, probe: &Op, c18: bool) -> Op {
             50..=64 => gen_rng_op(rng, t),
             65..=69 => Op::Getters,
             70..=77 => {
-                let (point, ed, mut st) = match gen_sample_x(rng, &t.spec, t.dim) {
+                let (point, ed, mut st) = match gen_sample_x_on(rng, t) {
                     Op::SampleX { point, ed, st } => (point, ed, st),
                     _ => unreachable!(),
                 };
@@ -277,8 +340,8 @@ pub fn gen_scenario(seed: u64, cfg: &GenCfg) -> Scenario {
     let mut clients: Vec<Vec<Op>> = Vec::new();
     let mut dense = 0u64;
     // probes several clients share (same arguments => same result), one per sampler
-    let probe = gen_sample_x(&mut rng, &main.spec, main.dim);
-    let probe_alt = alt.as_ref().map(|a| gen_sample_x(&mut rng, &a.spec, a.dim));
+    let probe = gen_sample_x_on(&mut rng, &main);
+    let probe_alt = alt.as_ref().map(|a| gen_sample_x_on(&mut rng, a));
     // choose the sampler an operation acts on, and wrap accordingly
     let pick = |rng: &mut SplitMix| -> bool { alt.is_some() && rng.chance(2, 5) };
     let wrap = |on_alt: bool, op: Op| -> Op {
@@ -328,7 +391,7 @@ pub fn gen_scenario(seed: u64, cfg: &GenCfg) -> Scenario {
             for _ in 0..nops {
                 let on_alt = pick(&mut rng);
                 let (t, pr) = if on_alt { (alt.as_ref().unwrap(), probe_alt.as_ref().unwrap()) } else { (&main, &probe) };
-                let op = if rng.chance(1, 2) { pr.clone() } else { gen_sample_x(&mut rng, &t.spec, t.dim) };
+                let op = if rng.chance(1, 2) { pr.clone() } else { gen_sample_x_on(&mut rng, t) };
                 ops.push(wrap(on_alt, op));
             }
             clients.push(ops);
@@ -356,7 +419,7 @@ pub fn gen_scenario(seed: u64, cfg: &GenCfg) -> Scenario {
                 let n = (rng.below(1 << bits) + 1).min(max_n);
                 let on_alt = pick(&mut rng);
                 let (t, pr) = if on_alt { (alt.as_ref().unwrap(), probe_alt.as_ref().unwrap()) } else { (&main, &probe) };
-                let filler = if rng.chance(1, 2) { pr.clone() } else { gen_sample_x(&mut rng, &t.spec, t.dim) };
+                let filler = if rng.chance(1, 2) { pr.clone() } else { gen_sample_x_on(&mut rng, t) };
                 ops.push(wrap(on_alt, Op::Repeat { op: Box::new(filler), n }));
                 ops.push(probe.clone());
                 if let Some(pa) = &probe_alt {
